@@ -33,7 +33,10 @@ NilPointerKinds == {"nilptr_struct", "nilptr_int"}
 OpaqueKinds == NilPointerKinds \cup {"ptr_struct", "ptr_int", "struct", "nil_slice", "empty_slice", "nil_map", "empty_map",
                                      "int8_zero", "uint_zero", "float32_zero", "int64_one", "time", "func", "empty_array", "slice_str",
                                      \* non-nil pointers to falsy values: the POINTER is tested, and it is not nil
-                                     "ptr_false", "ptr_empty_string", "ptr_empty_html"}
+                                     "ptr_false", "ptr_empty_string", "ptr_empty_html",
+                                     \* non-nil values with an Interface() method (printed as what it returns) that returns nil / false / "":
+                                     \* the VALUE is tested, and it is not nil
+                                     "holder_nil", "holder_false", "holder_empty_string"}
 
 \* opaque kinds a for loop visits zero times (empty or nil collections)
 EmptyIterKinds == {"nil_slice", "empty_slice", "nil_map", "empty_map", "empty_array"}
